@@ -148,6 +148,10 @@ pub struct RxPlan {
     /// time of day (+ this offset, ns); None: a free-running counter
     #[serde(default)]
     pub gnss_offset_ns: Option<i64>,
+    /// a receiver 100-400 NM away: it hears the airborne traffic only (its
+    /// reference is of no use for the surface reports it never receives)
+    #[serde(default)]
+    pub far: bool,
 }
 
 #[derive(Clone, Debug, Serialize, Deserialize)]
@@ -321,7 +325,12 @@ impl Scenario for Pipeline {
         let mut latency = Vec::new();
         let mut hear = Vec::new();
         for j in 0..n_rx {
+            let far = j > 0 && rng.chance(0.3);
             let reference = match surface_point {
+                Some((la, lo)) if far => {
+                    let d = rng.frange(100.0, 400.0) * 1852.0;
+                    Some(world::rhumb_step(la, lo, rng.frange(0.0, 360.0), d))
+                }
                 Some((la, lo)) if rng.chance(0.9) => {
                     let d = rng.frange(0.0, 30.0) * 1852.0;
                     Some(world::rhumb_step(la, lo, rng.frange(0.0, 360.0), d))
@@ -341,6 +350,7 @@ impl Scenario for Pipeline {
                 style: *rng.pick(&[0u8, 0, 1, 1, 1, 2, 3, 4, 4, 4]),
                 cut_seed: rng.next_u64(),
                 stalls: Vec::new(),
+                far,
                 gnss_offset_ns: if rng.chance(0.5) { Some(*rng.pick(&[0i64, 0, 1_000_000, -2_000_000_000, 13_000_000_000, -17_000_000_000, 600_000_000_000])) } else { None },
             });
             latency.push(rng.range(0, 300_000_000));
@@ -349,8 +359,12 @@ impl Scenario for Pipeline {
         let mut rcpts = Vec::new();
         let mut id = 0u32;
         let mut per_rx_count = vec![0u32; n_rx];
-        for (ti, _t) in txs.iter().enumerate() {
+        for (ti, t) in txs.iter().enumerate() {
+            let on_surface = aircraft[t.ac as usize].track.at(t.t_ns as f64 * 1e-9).surface;
             for j in 0..n_rx {
+                if receivers[j].far && on_surface {
+                    continue; // below the horizon of a distant receiver
+                }
                 if rng.chance(hear[j]) {
                     let delay = latency[j] + rng.range(0, 40_000_000);
                     let flip = if rng.chance(0.02) { Some(rng.below(112) as u8) } else { None };
@@ -586,7 +600,7 @@ impl Scenario for Pipeline {
             ],
             assumptions: vec![
                 "connections are never closed: after end of stream beast::receiver re-polls a finished stream in a loop that never suspends (outside the listed properties, see DESIGN.md)",
-                "C06 clause: judged for an aircraft only when every record of that aircraft was stamped within 3 s of its encoding time (latency + stalls + back-pressure measured per run); receiver references lie within 30 NM of the surface segment; only the first aircraft has surface segments",
+                "C06 clause: a record is judged when every earlier record of the same aircraft since the last silence of 180 s was handed over within 3 s of its encoding (measured by the harness at the tap; without the tap, read from the stamp) and no wall-clock step was in effect; the references of the receivers that hear surface traffic lie within 30 NM of the surface segment (distant receivers, 100-400 NM away, hear airborne traffic only); only the first aircraft has surface segments",
                 "C10 monotone clauses: judged only with the tap, when the stamps are non-decreasing in arrival order, with 1 ms of slack (stamps are arbitrary nanosecond instants here)",
                 "C12 clauses: not judged in runs with the expiry sweep (entries are removed and re-created) or after an early quit",
             ],
